@@ -200,6 +200,7 @@ def _decide(args, P, seed, scratch, t0):
             assumptions.add('%s: %s' % (r.unit, a))
         for f in r.functions:
             fn_list.append(dict(unit=r.unit, item='%s %s' % (f['kind'], f['name']), file=f['file'], line=f['src_line'],
+                                role='contract imported from unit %s' % f.get('from_unit') if f.get('stub') else 'verified here',
                                 byte_range=f['src_range'], sha256=f['sha256'][:16],
                                 splices=[s[2] for s in f['spans']]))
         for f in r.functions[:]:
@@ -207,6 +208,34 @@ def _decide(args, P, seed, scratch, t0):
                 if sid == 'contract' and len(samples) < 6:
                     samples.append(dict(unit=r.unit, fn=f['name'], contract=' '.join(body.split())[:400]))
                     break
+    # ---- thorough tier extras: proof stability under other solver seeds, and a long run of the replay
+    # drivers (exploration only: reported separately, never counted as proved)
+    stability = []
+    exploration = []
+    if tier == 'thorough' and not failures and not undecided:
+        for r in results:
+            spec = os.path.join(VERIF, 'specs', 'verus', r.unit + '.vspec')
+            for k in (1, 2):
+                rs = vverus.run_unit(REPO, spec, os.path.join(scratch, 'verus-seed%d' % k, r.unit), P.get('rlimit', {}).get(r.unit),
+                                     with_canary=False, smt_seed=seed * 7 + k * 13 + 1)
+                stability.append(dict(unit=r.unit, smt_random_seed=seed * 7 + k * 13 + 1, verified=rs.verified, errors=rs.errors,
+                                      stable=(not rs.failures and not rs.undecided and rs.verified == r.verified)))
+        seen = set()
+        for r in results:
+            for drv in vreplay.UNIT_MAP.get(r.unit, []):
+                if drv in seen:
+                    continue
+                seen.add(drv)
+                try:
+                    n, cex = vreplay.explore(REPO, scratch, drv, seed, 200000)
+                except Exception as e:
+                    exploration.append(dict(driver=drv, error=str(e)))
+                    continue
+                exploration.append(dict(driver=drv, sequences=n, failing_input=cex))
+                if cex:
+                    failures.append(dict(backend='replay', unit=r.unit, fn='?', kind='replay', clause=cex.get('observed', ''),
+                                         obligation='replay::%s::model difference on the real code' % drv, message='replay driver found a difference',
+                                         rendered=json.dumps(cex), in_extracted_fn=True, failing_input=cex))
     scan_results = []
     for sc in P.get('scans', []):
         try:
@@ -296,6 +325,8 @@ def _decide(args, P, seed, scratch, t0):
         undecided=undecided,
         known_findings_hit=[k.get('what') for k, _ in known_hit],
         scans=[dict(name=x['name'], sites=x['sites'], findings=len(x['findings'])) for x in scan_results],
+        proof_stability=stability,
+        exploration_not_counted=exploration,
         claim=P.get('claim'),
         not_claimed=P.get('not_claimed'),
     )
